@@ -17,7 +17,7 @@ SPEC = {
                  "transcription of changedTargets/HasSource + regenerated facts + differential correspondence with an independent oracle",
     "trusted": [
         "go/ast extractors harness/extract/c24 (changedTargets, Changes, HasSource, HasAbsoluteSource, diffGraphs, targetChanged, sourceHash, statement by statement) and harness/extract/c23 (FindRevdeps bookkeeping)",
-        "correspondence harness/cmd/c24 vs Driver/C24.lean: exact label set of query.Changes / query.DiffGraphs on random package trees (nested packages, directories without "
+        "correspondence harness/cmd/c24 vs Driver/C24.lean: exact label set of query.Changes / query.DiffGraphs under --include/--exclude configurations (incl. the `--exclude manual` the CLI always adds; planted cases where the directly changed target is hidden and its dependants are not) on random package trees (nested packages, directories without "
         "BUILD files, root package), directory sources, data files, label sources, file tools, levels 0/N/unlimited, before/after graphs with single-attribute edits",
         "modelled, not verified: Model/Changes.lean (changedTargets, HasAbsoluteSource) and Model/Query.lean (FindRevdeps)",
         "direct oracle: independent closest-package / consumption / reverse-closure computation in the harness, with class predicates for the known (C08 rule hash) and the repaired (file tool) root causes",
@@ -25,7 +25,8 @@ SPEC = {
     "assumptions": [
         "file names, package names and source strings are clean relative paths (no empty components, no ./ or trailing /)",
         "a target only consumes files whose closest enclosing package is its own (plz rejects sources that cross a package boundary)",
-        "no include/exclude label filters, no subrepos; packages that subinclude a changed build_defs target are not followed (FindRevdeps is called with followSubincludes=false)",
+        "include/exclude label filters are modelled (exact labels, every entry a conjunction); label patterns ending in *, the pseudo-label `test`, ExcludeTargets and subrepos are not; packages that subinclude a changed build_defs target are not followed (FindRevdeps is called with followSubincludes=false)",
+        "FileLabel tools exist only in graphs built in-process: BUILD files turn a file given as a tool into a SystemPathLabel (parseSource), so the repaired finding changes-file-tool-not-a-source concerns states that the API, not the BUILD language, can produce",
     ],
     "explanation": "C24_ownership and C24_superset hold for all inputs, file tools included; the repaired tool finding is replayed from corpus/C24/fixed-*.ops; the rule-hash finding is C08's and is planted as the first generated case of every run.",
 }
@@ -46,4 +47,12 @@ output directories (shared lake lock saturated), the two known classes loaded.
 Fix phase: changes-file-tool-not-a-source repaired in /repo (8e86b2b). Re-introducing it (`git revert -n`) on a scratch clone:
  class changes-file-tool-not-a-source again on corpus/C24/fixed-*.ops and 1333 generated inputs; 992 disagreements; C24_facts_ok fails.
 changes-rulehash-unframed is C08's defect (src/build/incrementality.go) and is left to C08.
+ S1 seeded change /tmp/seedout/C24/patch.diff: the labels of the directly changed targets are filtered with state.ShouldInclude BEFORE they
+      are handed to FindRevdeps. Needed include/exclude configurations, which the generator did not have: targets now carry labels
+      (manual/go/py), every query runs under a filter (none, `--exclude manual`, -i/-e combinations), `hiddenSeedCase` plants a hidden
+      directly-changed target with visible dependants, the oracle also checks level N (not only -1) and that nothing filtered is reported.
+      VERIF_REPO=<copy> ./check C24 quick -> exit 1, VIOLATION violation-changes-dependent-missed with
+      `changes u a/x.go - a:gen,a:t1,a:t2 a 0,1,2 0:-;1:0;2:1 0:x.go;1:-;2:- 0:-;1:-;2:- 0:manual;1:go;2:go - manual`
+      ("//a:t1 depends on a target that consumes a changed file but is not reported; exclude=[manual]"); fact seedsFiltered=true breaks
+      C24_facts_ok; the model (changedTargets with the regenerated seedsFiltered) follows the mutant: 0 disagreements.
 """
